@@ -33,6 +33,8 @@ def observe(cx, tier, seed, impl=None):
     for side, n, labels, other_labels, fn in ((True, cx.nG, cx.objects, cx.properties, ctx.intension),
                                               (False, cx.nM, cx.properties, cx.objects, ctx.extension)):
         arglists = [list(t) for t in gen.subsets(n, limit, r)]
+        if n > 1000:
+            arglists = [[], [0], [n - 1], list(range(n)), list(range(2900, n)), sorted(r.sample(range(n), 6))]
         extra = []
         for t in arglists[:: max(1, len(arglists) // 6)]:
             if t:
@@ -74,6 +76,12 @@ def as_str_if_chars(labs):
 
 def cases(tier, seed):
     ctxs = util.contexts_for(tier, seed, exh_thorough=10, rnd_quick=200, rnd_thorough=1500)
+    # thorough tier: beyond 3000 members on one side (where a float logarithm of a power of two is no longer exact;
+    # about 7 minutes of evaluation inside Coq for each of the two tables)
+    n = 3200
+    if tier == 'thorough':
+        ctxs.append(gen.Ctx([(g * 7 + 3) % 15 + 1 for g in range(n)], 4, 'huge:3200x4', gen.label_scheme(0)))
+        ctxs.append(gen.Ctx([sum(1 << m for m in range(n) if (m + k) % (k + 2) == 0) | (1 << (n - 1)) for k in range(4)], n, 'huge:4x3200', gen.label_scheme(0)))
     impls = util.prebuild(ctxs)
     out = [observe(cx, tier, seed, impl) for cx, impl in zip(ctxs, impls)]
     from . import latfam
